@@ -611,7 +611,24 @@ class Interp(ExtMixin):
         h = getattr(cont, "contains", None)
         if h is not None:
             return h(self, st, x)
+        m = self._dunder(st, cont, "__contains__")
+        if m is not None:
+            outs = list(self.call_function(st, m, [x], {}, None))
+            if len(outs) != 1:
+                raise Unsupported("__contains__ forked")
+            return self.truth(st, outs[0][1])
         raise Unsupported(f"`in` on {cont!r}")
+
+    def _dunder(self, st, o, name):
+        """special method of the python class an abstract instance models"""
+        if isinstance(o, SymObj):
+            klass = o.attrs.get("__class__")
+            ic = getattr(klass, "instance_class", None) if isinstance(klass, SymObj) else None
+            if ic:
+                found = self.find_method(ic, name)
+                if found:
+                    return FuncVal(found[0], found[1], o)
+        return None
 
     # ---- attribute / subscript ----------------------------------------------------------
     def ev_Attribute(self, st, n):
@@ -791,6 +808,12 @@ class Interp(ExtMixin):
         h = getattr(o, "getitem", None)
         if h is not None:
             return h(self, st, i, node)
+        m = self._dunder(st, o, "__getitem__")
+        if m is not None:
+            outs = list(self.call_function(st, m, [i], {}, node))
+            if len(outs) != 1:
+                raise Unsupported("__getitem__ forked")
+            return outs[0][1]
         raise Unsupported(f"subscript of {o!r}")
 
     def getslice(self, st, o, lo, hi, node):
